@@ -426,6 +426,59 @@ func runC02(p *core.Prog, r *core.Report, tier string) {
 		}
 	}
 
+	// ---- (j) the running mark is dropped after every run ----
+	// each invocation of the job function inside the job loops is followed, before the loop waits again or ends, by
+	// active.Store(false): a run that leaves the mark set makes every later early-run request fail and, for a periodic
+	// job, makes the next tick wait for a signal that never comes
+	nRun := 0
+	for _, f := range fns {
+		if f.Parent() == nil {
+			continue
+		}
+		core.EachInstr(f, func(in ssa.Instruction) {
+			c, ok := in.(*ssa.Call)
+			if !ok || c.Call.IsInvoke() || c.Call.StaticCallee() != nil {
+				return
+			}
+			if !strings.HasSuffix(c.Call.Value.Type().String(), "scheduler.JobFunc") {
+				return
+			}
+			nRun++
+			isClear := func(x ssa.Instruction) bool {
+				cc, ok := x.(*ssa.Call)
+				if !ok {
+					return false
+				}
+				callee := cc.Call.StaticCallee()
+				if callee == nil || callee.Name() != "Store" || callee.Signature.Recv() == nil || !strings.Contains(callee.Signature.Recv().Type().String(), "atomic.Bool") {
+					return false
+				}
+				if len(cc.Call.Args) < 2 {
+					return false
+				}
+				k, ok := cc.Call.Args[1].(*ssa.Const)
+				return ok && k.Value != nil && k.Value.String() == "false"
+			}
+			w := core.PathQuery{Fn: f, From: c, Target: func(x ssa.Instruction) bool {
+				if _, isSel := x.(*ssa.Select); isSel {
+					return true
+				}
+				return core.IsReturn(x)
+			}, Avoid: isClear}.Find()
+			r.Check(w == nil, "C02.j", fmt.Sprintf("%s|run#%d|clears-active", core.FnKey(f), nRun), p.Pos(c.Pos()), "the running mark is cleared after the job function returns",
+				"after this run of the job function the loop can wait again (or end) with the running mark still set: later early-run requests are refused as 'already running' and a periodic job's next tick blocks", p.WitnessText(w)...)
+		})
+	}
+	r.Floor("C02.j job function invocations in the job loops", nRun, 4)
+
+	// ---- (i) a name is claimed atomically ----
+	nAtomic := 0
+	for _, f := range fns {
+		nAtomic += checkTestAndSetAtomic(p, r, la, "C02.i", f, jobsField,
+			"the job-name lock is released between testing that the name is free and inserting the job: two concurrent requests for one name both pass the test, the second insert replaces the first job in the table, and both goroutines run the job")
+	}
+	r.Floor("C02.i name test/insert pairs", nAtomic, 2)
+
 	// ---- (e) send/close discipline ----
 	nSend := 0
 	for _, f := range fns {
